@@ -177,7 +177,7 @@ pub fn worker_runs(
             )
         });
         let cfg = RunCfg {
-            root: scratch.join("w"),
+            root: world_root(scratch, "w", seed),
             seed,
             chaos,
             rd_perm: true,
@@ -285,6 +285,17 @@ pub fn brief(op: &Op) -> String {
     }
 }
 
+/// Every fourth world is reached through a path that is not in canonical form
+/// (`<scratch>/dots/../w`): what libcnb reports and derives must use the path as given.
+pub fn world_root(scratch: &Path, name: &str, seed: u64) -> std::path::PathBuf {
+    if seed % 4 == 1 {
+        let _ = std::fs::create_dir_all(scratch.join("dots"));
+        scratch.join("dots").join("..").join(name)
+    } else {
+        scratch.join(name)
+    }
+}
+
 /// Delta-debugging minimisation: drop steps (then simplify payloads) while the same violation
 /// class (same invariant, same signature shape) persists. Runs inside a worker process.
 pub fn minimise(replay: &Replay, scratch: &Path, shim: &Shim) -> Replay {
@@ -294,7 +305,7 @@ pub fn minimise(replay: &Replay, scratch: &Path, shim: &Shim) -> Replay {
             .filter(|v| v.invariant == replay.violation.invariant && v.properties.contains(&replay.property))
     };
     let cfg = RunCfg {
-        root: scratch.join("min"),
+        root: world_root(scratch, "min", replay.seed),
         seed: replay.seed,
         chaos: replay.chaos,
         rd_perm: replay.rd_perm,
@@ -394,7 +405,7 @@ pub fn minimise(replay: &Replay, scratch: &Path, shim: &Shim) -> Replay {
 
 pub fn replay_once(replay: &Replay, scratch: &Path, shim: &Shim) -> RunReport {
     let cfg = RunCfg {
-        root: scratch.join("replay"),
+        root: world_root(scratch, "replay", replay.seed),
         seed: replay.seed,
         chaos: replay.chaos,
         rd_perm: replay.rd_perm,
